@@ -673,3 +673,372 @@ fn m_number_visit_raw_n7() {
     kani::cover!(r.is_err());
     core::mem::forget(r);
 }
+
+// ---- M-dom: the DOM drivers (parse_object/parse_array, in-place and copying) -----------------------
+//
+// Leaves and nested values are contract models that *emit the event the real callee would emit*,
+// tagged with the start index of the token, so the harness can compare the whole event stream
+// (order, duplicates, counts passed to visit_*_end) with the one the grammar prescribes.
+
+const EV_OBJ_START: u8 = 1;
+const EV_OBJ_END: u8 = 2;
+const EV_ARR_START: u8 = 3;
+const EV_ARR_END: u8 = 4;
+const EV_STR: u8 = 5; // arg = index of the first byte after the opening quote
+const EV_NUM: u8 = 6; // arg = index of the first byte of the number
+const EV_VALUE: u8 = 7; // arg = index of the first byte of a nested value (abstract recogniser E)
+const EV_LIT: u8 = 8; // arg = index of the first byte of the literal
+const EVN: usize = 12;
+
+struct Rec {
+    kind: [u8; EVN],
+    arg: [usize; EVN],
+    n: usize,
+}
+
+impl Rec {
+    fn new() -> Self {
+        Rec { kind: [0; EVN], arg: [0; EVN], n: 0 }
+    }
+    fn push(&mut self, k: u8, a: usize) -> bool {
+        if self.n < EVN {
+            self.kind[self.n] = k;
+            self.arg[self.n] = a;
+        }
+        self.n += 1;
+        true
+    }
+}
+
+impl<'de> JsonVisitor<'de> for Rec {
+    fn visit_object_start(&mut self, hint: usize) -> bool {
+        self.push(EV_OBJ_START, hint)
+    }
+    fn visit_object_end(&mut self, len: usize) -> bool {
+        self.push(EV_OBJ_END, len)
+    }
+    fn visit_array_start(&mut self, hint: usize) -> bool {
+        self.push(EV_ARR_START, hint)
+    }
+    fn visit_array_end(&mut self, len: usize) -> bool {
+        self.push(EV_ARR_END, len)
+    }
+    // the contract models below report leaves through these two with the token's start index
+    fn visit_u64(&mut self, v: u64) -> bool {
+        self.push((v >> 32) as u8, (v & 0xffff_ffff) as usize)
+    }
+}
+
+fn emit<'de, V: JsonVisitor<'de>>(vis: &mut V, kind: u8, at: usize) -> bool {
+    vis.visit_u64(((kind as u64) << 32) | at as u64)
+}
+
+/// parse_string_owned / parse_string_inplace: reader just after the opening quote
+fn model_parse_string_owned<'de, R: Reader<'de>, V: JsonVisitor<'de>>(
+    p: &mut Parser<R>,
+    vis: &mut V,
+    _strbuf: &mut Vec<u8>,
+) -> Result<()> {
+    model_string_event(p, vis)
+}
+
+fn model_parse_string_inplace<'de, R: Reader<'de>, V: JsonVisitor<'de>>(p: &mut Parser<R>, vis: &mut V) -> Result<()> {
+    model_string_event(p, vis)
+}
+
+fn model_string_event<'de, R: Reader<'de>, V: JsonVisitor<'de>>(p: &mut Parser<R>, vis: &mut V) -> Result<()> {
+    let b = p.read.as_u8_slice();
+    let i = p.read.index();
+    match unsafe { tab(&STR_END, i) } {
+        Some(e) => {
+            p.read.set_index(e);
+            emit(vis, EV_STR, i);
+            Ok(())
+        }
+        None => {
+            p.read.set_index(b.len());
+            Err(cut_err(InvalidJsonValue, b, i))
+        }
+    }
+}
+
+/// parse_value / parse_value2: whitespace + abstract value recogniser E
+fn model_parse_value<'de, R: Reader<'de>, V: JsonVisitor<'de>>(p: &mut Parser<R>, vis: &mut V) -> Result<()> {
+    model_value_event(p, vis)
+}
+
+fn model_parse_value2<'de, R: Reader<'de>, V: JsonVisitor<'de>>(
+    p: &mut Parser<R>,
+    vis: &mut V,
+    _strbuf: &mut Vec<u8>,
+) -> Result<()> {
+    model_value_event(p, vis)
+}
+
+fn model_value_event<'de, R: Reader<'de>, V: JsonVisitor<'de>>(p: &mut Parser<R>, vis: &mut V) -> Result<()> {
+    let b = p.read.as_u8_slice();
+    let n = b.len();
+    let i = unsafe { ws_next(p.read.index()) };
+    match unsafe { val_end(b, i) } {
+        Some(e) => {
+            p.read.set_index(e);
+            emit(vis, EV_VALUE, i);
+            Ok(())
+        }
+        None => {
+            p.read.set_index(if i < n { i + 1 } else { n });
+            Err(cut_err(InvalidJsonValue, b, i))
+        }
+    }
+}
+
+/// reference event stream of the rest of an object after `{`
+unsafe fn ref_object_events(b: &[u8], n: usize, exp: &mut Rec) -> Option<usize> {
+    exp.push(EV_OBJ_START, 0);
+    let mut i = ws_next(0);
+    if i < n && b[i] == b'}' {
+        exp.push(EV_OBJ_END, 0);
+        return Some(i + 1);
+    }
+    let mut count = 0;
+    loop {
+        if i >= n || b[i] != b'"' {
+            return None;
+        }
+        let ks = i + 1;
+        let ke = tab(&STR_END, ks)?;
+        exp.push(EV_STR, ks);
+        i = ws_next(ke);
+        if i >= n || b[i] != b':' {
+            return None;
+        }
+        i = ws_next(i + 1);
+        let e = val_end(b, i)?;
+        exp.push(EV_VALUE, i);
+        count += 1;
+        i = ws_next(e);
+        if i >= n {
+            return None;
+        }
+        if b[i] == b'}' {
+            exp.push(EV_OBJ_END, count);
+            return Some(i + 1);
+        }
+        if b[i] != b',' {
+            return None;
+        }
+        i = ws_next(i + 1);
+    }
+}
+
+fn dom_object_body<const N: usize>(inplace: bool) {
+    let buf: [u8; N] = kani::any();
+    let n: usize = kani::any();
+    kani::assume(n <= N);
+    unsafe { setup(&buf, n) };
+    let mut exp = Rec::new();
+    let expect = unsafe { ref_object_events(&buf, n, &mut exp) };
+    let mut vis = Rec::new();
+    let mut p = mk(&buf[..n]);
+    let mut strbuf: Vec<u8> = Vec::new();
+    let r = if inplace { p.parse_object(&mut vis) } else { p.parse_object2(&mut vis, &mut strbuf) };
+    match (&r, expect) {
+        (Ok(()), Some(end)) => {
+            assert_eq!(p.read.index(), end);
+            assert_eq!(vis.n, exp.n);
+            assert!(vis.n <= EVN);
+            let k: usize = kani::any();
+            kani::assume(k < vis.n);
+            assert_eq!(vis.kind[k], exp.kind[k]);
+            assert_eq!(vis.arg[k], exp.arg[k]);
+        }
+        (Err(_), None) => {}
+        _ => panic!("DOM object driver differs from the object production"),
+    }
+    kani::cover!(r.is_ok() && vis.n == 4);
+    kani::cover!(r.is_ok() && vis.n == 2);
+    kani::cover!(r.is_err() && vis.n >= 3);
+    core::mem::forget(r);
+    core::mem::forget(strbuf);
+}
+
+/// C02/C03 M-dom-object (copying driver): accept/reject, stop index and the whole event stream
+/// (member order, duplicates, count handed to visit_object_end) equal the object production,
+/// for every nested recogniser E.
+#[kani::proof]
+#[kani::unwind(10)]
+#[kani::stub(crate::error::Error::syntax, crate::error::verif_kani_error::syntax_cut)]
+#[kani::stub(Parser::skip_space, model_skip_space)]
+#[kani::stub(Parser::parse_string_owned, model_parse_string_owned)]
+#[kani::stub(Parser::parse_value2, model_parse_value2)]
+fn m_dom_object2_n8() {
+    dom_object_body::<8>(false);
+}
+
+/// C02/C03 M-dom-object (in-place driver)
+#[kani::proof]
+#[kani::unwind(10)]
+#[kani::stub(crate::error::Error::syntax, crate::error::verif_kani_error::syntax_cut)]
+#[kani::stub(Parser::skip_space, model_skip_space)]
+#[kani::stub(Parser::parse_string_inplace, model_parse_string_inplace)]
+#[kani::stub(Parser::parse_value, model_parse_value)]
+fn m_dom_object_n8() {
+    dom_object_body::<8>(true);
+}
+
+fn model_parse_number_visit<'de, R: Reader<'de>, V: JsonVisitor<'de>>(p: &mut Parser<R>, _first: u8, vis: &mut V) -> Result<()> {
+    let b = p.read.as_u8_slice();
+    let i = p.read.index() - 1;
+    match unsafe { tab(&NUM_END, i) } {
+        Some(e) => {
+            p.read.set_index(e);
+            emit(vis, EV_NUM, i);
+            Ok(())
+        }
+        None => Err(cut_err(InvalidNumber, b, i)),
+    }
+}
+
+fn model_parse_literal_visit<'de, R: Reader<'de>, V: JsonVisitor<'de>>(p: &mut Parser<R>, _first: u8, vis: &mut V) -> Result<()> {
+    let b = p.read.as_u8_slice();
+    let n = b.len();
+    let i = p.read.index() - 1;
+    match ref_literal_end(b, n, i) {
+        Some(e) => {
+            p.read.set_index(e);
+            emit(vis, EV_LIT, i);
+            Ok(())
+        }
+        None => Err(cut_err(InvalidLiteral, b, i)),
+    }
+}
+
+/// nested object inside an array: reader just after `{`
+fn model_parse_nested_obj<'de, R: Reader<'de>, V: JsonVisitor<'de>>(p: &mut Parser<R>, vis: &mut V) -> Result<()> {
+    let b = p.read.as_u8_slice();
+    let i = p.read.index() - 1;
+    match unsafe { val_end(b, i) } {
+        Some(e) => {
+            p.read.set_index(e);
+            emit(vis, EV_VALUE, i);
+            Ok(())
+        }
+        None => Err(cut_err(InvalidJsonValue, b, i)),
+    }
+}
+
+fn model_parse_nested_obj2<'de, R: Reader<'de>, V: JsonVisitor<'de>>(
+    p: &mut Parser<R>,
+    vis: &mut V,
+    _strbuf: &mut Vec<u8>,
+) -> Result<()> {
+    model_parse_nested_obj(p, vis)
+}
+
+/// reference event stream of the rest of an array after `[` (no nested '[' in the buffer)
+unsafe fn ref_array_events(b: &[u8], n: usize, exp: &mut Rec) -> Option<usize> {
+    exp.push(EV_ARR_START, 0);
+    let mut i = ws_next(0);
+    if i < n && b[i] == b']' {
+        exp.push(EV_ARR_END, 0);
+        return Some(i + 1);
+    }
+    let mut count = 0;
+    loop {
+        if i >= n {
+            return None;
+        }
+        let c = b[i];
+        let e = if c == b'-' || is_digit(c) {
+            exp.push(EV_NUM, i);
+            tab(&NUM_END, i)?
+        } else if c == b'"' {
+            exp.push(EV_STR, i + 1);
+            tab(&STR_END, i + 1)?
+        } else if c == b'{' {
+            exp.push(EV_VALUE, i);
+            val_end(b, i)?
+        } else {
+            exp.push(EV_LIT, i);
+            ref_literal_end(b, n, i)?
+        };
+        count += 1;
+        i = ws_next(e);
+        if i >= n {
+            return None;
+        }
+        if b[i] == b']' {
+            exp.push(EV_ARR_END, count);
+            return Some(i + 1);
+        }
+        if b[i] != b',' {
+            return None;
+        }
+        i = ws_next(i + 1);
+    }
+}
+
+fn dom_array_body<const N: usize>(inplace: bool) {
+    let buf: [u8; N] = kani::any();
+    let n: usize = kani::any();
+    kani::assume(n <= N);
+    // directly nested arrays are excluded: the `[` arm is textually the `{` arm with the callee
+    // exchanged, and taking it would recurse into the function under test
+    let mut k = 0;
+    while k < N {
+        kani::assume(buf[k] != b'[');
+        k += 1;
+    }
+    unsafe { setup(&buf, n) };
+    let mut exp = Rec::new();
+    let expect = unsafe { ref_array_events(&buf, n, &mut exp) };
+    let mut vis = Rec::new();
+    let mut p = mk(&buf[..n]);
+    let mut strbuf: Vec<u8> = Vec::new();
+    let r = if inplace { p.parse_array(&mut vis) } else { p.parse_array2(&mut vis, &mut strbuf) };
+    match (&r, expect) {
+        (Ok(()), Some(end)) => {
+            assert_eq!(p.read.index(), end);
+            assert_eq!(vis.n, exp.n);
+            assert!(vis.n <= EVN);
+            let k: usize = kani::any();
+            kani::assume(k < vis.n);
+            assert_eq!(vis.kind[k], exp.kind[k]);
+            assert_eq!(vis.arg[k], exp.arg[k]);
+        }
+        (Err(_), None) => {}
+        _ => panic!("DOM array driver differs from the array production"),
+    }
+    kani::cover!(r.is_ok() && vis.n == 5);
+    kani::cover!(r.is_ok() && vis.n == 2);
+    kani::cover!(r.is_ok() && vis.n == 3 && vis.kind[1] == EV_VALUE);
+    kani::cover!(r.is_err() && vis.n >= 2);
+    core::mem::forget(r);
+    core::mem::forget(strbuf);
+}
+
+/// C02/C03 M-dom-array (copying driver)
+#[kani::proof]
+#[kani::unwind(9)]
+#[kani::stub(crate::error::Error::syntax, crate::error::verif_kani_error::syntax_cut)]
+#[kani::stub(Parser::skip_space, model_skip_space)]
+#[kani::stub(Parser::parse_string_owned, model_parse_string_owned)]
+#[kani::stub(Parser::parse_number_visit, model_parse_number_visit)]
+#[kani::stub(Parser::parse_literal_visit, model_parse_literal_visit)]
+#[kani::stub(Parser::parse_object2, model_parse_nested_obj2)]
+fn m_dom_array2_n7() {
+    dom_array_body::<7>(false);
+}
+
+/// C02/C03 M-dom-array (in-place driver)
+#[kani::proof]
+#[kani::unwind(9)]
+#[kani::stub(crate::error::Error::syntax, crate::error::verif_kani_error::syntax_cut)]
+#[kani::stub(Parser::skip_space, model_skip_space)]
+#[kani::stub(Parser::parse_string_inplace, model_parse_string_inplace)]
+#[kani::stub(Parser::parse_number_inplace, model_parse_number_visit)]
+#[kani::stub(Parser::parse_literal_visit, model_parse_literal_visit)]
+#[kani::stub(Parser::parse_object, model_parse_nested_obj)]
+fn m_dom_array_n7() {
+    dom_array_body::<7>(true);
+}
